@@ -355,7 +355,7 @@ var phaseOf = map[string]string{
 }
 
 func C11(c *core.Ctx, replay string) {
-	c.Rule = "For every operation type and storage configuration a dry run records the sequence of instrumented filesystem steps of the request; then one real gateway process per step is killed (SIGKILL from the hook) exactly there, restarted, and the key's state is read back through the API. TLC judges each (previous state, killed operation, state after restart) history against the atomic-register spec LinKey, reading the killed request as one that may or may not have taken effect; the implementation-shaped model PosixKey with its Crash action is model-checked (repaired design satisfies the properties). Non-trivial: a kill point strictly inside the operation (after its first and before its last step)."
+	c.Rule = "For every operation type and storage configuration a dry run records the sequence of instrumented filesystem steps of the request; then one real gateway process per step is killed (SIGKILL from the hook) exactly there, restarted, and the key's state is read back through the API. TLC judges each (previous state, killed operation, state after restart) history against the atomic-register spec LinKey, reading the killed request as one that may or may not have taken effect; the implementation-shaped model PosixKey with its Crash action is model-checked (repaired design satisfies the properties). Non-trivial: a kill point strictly inside the operation (after its first and before its last step). After a killed multipart completion that did not take effect the upload itself is read: its part must be listed with the acknowledged ETag and size and the completion must succeed when sent again."
 	c.Assumptions = []string{"process kill only (no power loss, no fsync reasoning), ext4", "kill points are the verifhook sites; code between two sites is one step"}
 
 	configs := []pkConfig{{"otmp", "xattr", false}}
